@@ -398,27 +398,6 @@ def check_property(pid, tier):
                 except Undecided as e:
                     undecided.append(str(e))
         extra = []
-        import kani_runner
-        if not undecided:
-            extra = kani_runner.run_for(pid, pc, tier, workdir, REPO, seed)
-        else:
-            # a unit outside Verus' reach (front-end error on changed code): let the registered Kani harnesses of the
-            # undecided units look for a counterexample; a failing harness is a violation, a passing one decides nothing
-            force = []
-            for u, hs in pc.get('kani_fallback', {}).items():
-                if any(x.startswith(u + ':') for x in undecided):
-                    force += hs
-            if force:
-                fb = kani_runner.run_for(pid, pc, tier, workdir, REPO, seed, force=force)
-                fb_failed = [e for e in fb if e['failed']]
-                if fb_failed:
-                    extra = fb_failed
-                    for u in undecided:
-                        print('NOTE: property=%s Verus could not decide (%s); Kani fallback found a counterexample' % (pid, u.split('\n')[0][:200]))
-                    undecided = []
-                else:
-                    for e in fb:
-                        undecided += e.get('undecided', [])
         if undecided:
             # last resort for a unit Verus could not decide (lost anchor / front-end error on changed code): the unit's
             # registered replay tests (bounded, concrete inputs on the real code).  A failing test is a violation with a
@@ -449,6 +428,27 @@ def check_property(pid, tier):
                 for x in [x for x in undecided if x.startswith(u + ':')]:
                     print('NOTE: property=%s Verus could not decide (%s); the replay tests of the unit found a failing input' % (pid, x.split('\n')[0][:200]))
                 undecided = [x for x in undecided if not x.startswith(u + ':')]
+        import kani_runner
+        if not undecided:
+            extra += kani_runner.run_for(pid, pc, tier, workdir, REPO, seed)
+        else:
+            # a unit outside Verus' reach (front-end error on changed code): let the registered Kani harnesses of the
+            # undecided units look for a counterexample; a failing harness is a violation, a passing one decides nothing
+            force = []
+            for u, hs in pc.get('kani_fallback', {}).items():
+                if any(x.startswith(u + ':') for x in undecided):
+                    force += hs
+            if force:
+                fb = kani_runner.run_for(pid, pc, tier, workdir, REPO, seed, force=force)
+                fb_failed = [e for e in fb if e['failed']]
+                if fb_failed:
+                    extra += fb_failed
+                    for u in undecided:
+                        print('NOTE: property=%s Verus could not decide (%s); Kani fallback found a counterexample' % (pid, u.split('\n')[0][:200]))
+                    undecided = []
+                else:
+                    for e in fb:
+                        undecided += e.get('undecided', [])
         if not undecided and pc.get('bounded_replay'):
             # bounded stand-ins registered for this property: replay test modules run on the real code (concrete inputs);
             # reported under `bounded`, never counted as proved; a failing test is a violation with its failing input
